@@ -1,8 +1,13 @@
 """C19 — a LAMMPS log is read back run by run, column by column, value by value.
 
-translator   : trigger strings, version-prefix/slice constants, line-number offsets and the month table
-               of atomman/lammps/Log.py -> lean/Atomman/Generated/LogTriggers.lean (re-generated each run;
-               the theorems of Proofs/C19.lean are re-checked against what the source says now)
+translator   : trigger strings, version-prefix/slice constants, line-number offsets, the month table, the seek
+               statements, the flatten filters and the defaults of the signatures of atomman/lammps/Log.py
+               -> lean/Atomman/Generated/LogTriggers.lean (constants the model is built on); the statements of the
+               single pass of Log.read (initialisation, loop body, closing of the last block), of the Simulation class
+               (setters, __init__, __getitem__) and of the merge loop / Step assertion of Log.flatten as Lean
+               definitions, plus normalised-statement pins for the pandas pipelines and the glue
+               -> lean/Atomman/Generated/LogSource.lean, proved equal to the hand model in Proofs/C19_Source.lean
+               (both re-generated each run; the theorems are re-checked against what the source says now)
 correspond   : real atomman.lammps.Log vs the Lean driver on the same synthesised log lines
 search       : the property's clauses on the real code against the run specs the log was synthesised from
 """
@@ -731,6 +736,15 @@ def translate_source(src: str) -> str:
         test = '!(s.keys.contains key)'
     elif t in ('key in self.keys()', 'key in self.__keys'):
         test = 's.keys.contains key'
+    elif isinstance(gb[0].test, ast.Compare) and len(gb[0].test.ops) == 1 \
+            and isinstance(gb[0].test.ops[0], (ast.In, ast.NotIn)) and ast.unparse(gb[0].test.left) == 'key' \
+            and isinstance(gb[0].test.comparators[0], (ast.Tuple, ast.List)) \
+            and all(isinstance(x, ast.Constant) and isinstance(x.value, str) for x in gb[0].test.comparators[0].elts):
+        # a fixed list of names instead of the keys that were set: a different definition, for the proof to reject
+        names = '[' + ', '.join(lean_str(x.value) for x in gb[0].test.comparators[0].elts) + ']'
+        test = f'({names} : List String).contains key'
+        if isinstance(gb[0].test.ops[0], ast.NotIn):
+            test = f'!({test})'
     else:
         raise TranslationError(f'Simulation.__getitem__: test `{t}` outside the translated subset')
     L += ['/-- `Simulation.__getitem__`: does it raise KeyError -/',
@@ -933,8 +947,14 @@ THEOREMS = [
     'C19.flattenStyle_single',
     # round 6 — call forms with arguments left out, end-to-end statements
     'C19.call_defaults', 'C19.ctor_render', 'C19.ctor_render_text', 'C19.read_then_flatten_all',
+    # round 6 — flattenTables runs the merge loop of the source; numeric tables need no quietness hypothesis
+    'C19.flatten_uses_merge_loop', 'C19.quiet_of_no_capital', 'C19.numeric_row_quiet',
 ]
 PARTIAL = {
+    'input decision': 'which of text / path / bytes / stream an input is taken as is decided by '
+                      'potentials.tools.uber_open_rmode (a third-party package, outside /repo): assumption, exercised with '
+                      'every input kind in every history; what Log.py imports under that name is pinned '
+                      '(gen_opener_pinned)',
     'timing breakdown': 'read_breakdown / read_breakdown_old (read() returns and the records are right) cover the `MPI task '
                         'timing breakdown` layout and the old `Pair  time (%) = …` layout with well-formed blocks (a log '
                         'mixing both layouts is not covered: the code parses all blocks of a read in one layout); '
@@ -997,7 +1017,9 @@ ASSUMPTIONS = [
     'only the position reported after a read depends on this (correspondence), no theorem and no oracle clause does',
 ]
 TRUSTED = ['pandas/numpy inside the real Log', 'the log synthesiser and the clause oracle in harness/props/c19.py',
-           'the constant extractor (ast walk of Log.read / __read_lammps_version)']
+           'the constant extractor (ast walk of Log.read / __read_lammps_version)',
+           'the statement translator translate_source (ast -> Lean for the restricted statement subset of the single pass, '
+           'the Simulation class and the merge loop; anything outside the subset raises TranslationError)']
 MANIFEST = {
     'text': 'Lean model over character lists of Log.read (single pass that skips and does not count blank lines, trigger '
             'strings / line-number offsets / version slice / month table regenerated from Log.py on every run, table '
@@ -1012,11 +1034,18 @@ MANIFEST = {
             'rows not superseded by an earlier/later run, each step once, from the earliest/latest run printing it, sorted, '
             'complete on aligned grids, both styles characterised also for header-only runs; the refusals of flatten (no Step column: AssertionError, unknown style over two or more records: ValueError, empty selection: IndexError) and the one-record selection; logs with well-formed timing blocks of the new or of the old layout are read without exception. Tie: translator for the constants + differential correspondence real Log vs '
             'compiled model on synthesised histories (exact on integers, 16 ulp on floats); failing-input search with the '
-            'property clauses evaluated on the real code from the run specifications alone.',
+            'property clauses evaluated on the real code from the run specifications alone. Round 6: the loop body of the single '
+            'pass, the initialisation and closing of its bookkeeping, the Simulation setters / constructor / __getitem__, the '
+            'style dispatch of the merge loop and the Step assertion are regenerated from Log.py as Lean definitions '
+            '(Generated/LogSource.lean) and proved equal to the model (18 gen_ obligations); records as objects (keys, '
+            'sim[key] refuses iff the key was not set), the merge loop as coded with its refusals exactly (ValueError iff '
+            'unsupported style and at least two records, IndexError iff empty selection), call forms with arguments left out, '
+            'Log(text) of a printed log = the printed runs, numeric rows need no quietness hypothesis.',
     'note': 'Trusted: Lean kernel + propext/Classical.choice/Quot.sound; pandas read_csv/concat behaviour as stated in '
             'ASSUMPTIONS (exercised on every case); the Python log synthesiser/oracle. Performance tables are compared in '
             'the correspondence only.',
-    'technique': 'Lean 4 theorems over a hand-written model + translator-generated constants + differential correspondence',
+    'technique': 'Lean 4 theorems over a model whose transition function, object setters and merge dispatch are proved equal '
+                 'to definitions regenerated from the source + translator-generated constants + differential correspondence',
 }
 
 MONTHS = ['Jan', 'Feb', 'Mar', 'Apr', 'May', 'Jun', 'Jul', 'Aug', 'Sep', 'Oct', 'Nov', 'Dec']
@@ -1860,6 +1889,10 @@ def _read_op(rng, k, mode, first, reuse=False, pre=None):
     return ['read', k, rng.choice(APPEND_VALUES), mode, reuse, pre, rng.choice(['kw', 'kw', 'pos'])]
 
 
+# unsupported styles: near misses of the three documented spellings (refused once there is something to merge)
+NEAR_STYLES = ['bogus', 'First', 'LAST', 'All', 'first ', ' last', '', 'latest', 'firsts', 'al', 'none']
+
+
 def gen_history(rng, allow_dirty, size='small', allow_backward=True):
     """-> (logs: [{'text','expect'}], ops)."""
     nlogs = rng.choice([1, 1, 1, 2, 2, 3, 4])
@@ -1877,6 +1910,8 @@ def gen_history(rng, allow_dirty, size='small', allow_backward=True):
             # style None: not given (documented default 'last'); arguments by position, by keyword, or by keyword with
             # those that are None left out
             style = rng.choice(['first'] * 5 + ['last'] * 5 + ['all'] * 4 + ['bogus', None, None])
+            if style == 'bogus':
+                style = rng.choice(NEAR_STYLES)
             if rng.random() < 0.15 and not allow_dirty:
                 # the caller edits a record he was handed (drops its last row in place) between two identical
                 # questions: the second answer sees the edit (not in logs with junk lines inside a block: dropping the
@@ -2595,6 +2630,14 @@ def _state_clauses(k, st, cur):
             want = ['thermo'] + (['performance'] if perf is not None else [])
             if keys != want:
                 return 'read:record-keys', f'op {k}: run {j}: the record has keys {keys}, expected {want}'
+    if 'refuses' in st:
+        # sim[key]: the table behind a key that was set, KeyError for everything else (a record without timing breakdown
+        # has no 'performance' key; a thermo keyword is not a key of the record)
+        for j, (bits, (_, perf)) in enumerate(zip(st['refuses'], st['sims'])):
+            want = '0' + ('0' if perf is not None else '1') + '1'
+            if bits != want:
+                return 'read:record-getitem', (f'op {k}: run {j}: sim[key] for key in {PROBE_KEYS} gives {bits}, '
+                                               f'expected {want} (1 = KeyError, 0 = the attribute of that name)')
     return None
 
 
